@@ -98,6 +98,7 @@ EditCalls ==
   \cup {[C("SetDenot") EXCEPT !.v = v, !.i = -1, !.name = "DATA_BATCH"] : v \in EV}
   \cup {[C("MetaPut") EXCEPT !.v = v, !.name = "k2"] : v \in EV}
   \cup {[C("ValMetaPut") EXCEPT !.v = v, !.name = "k2"] : v \in EV}
+  \cup {[C("MetaInvalidate") EXCEPT !.v = v, !.name = k] : v \in EV, k \in {"k1", "k2"}}
   \cup {[C("SetConst") EXCEPT !.v = v, !.flag = f] : v \in EV, f \in BOOLEAN}
   \cup {[C("SetName") EXCEPT !.v = v, !.name = "zz"] : v \in EV}
   \cup {[C("NodeMetaPut") EXCEPT !.n = n, !.name = "k2"] : n \in EN}
